@@ -756,7 +756,7 @@ Section Calls.
     destruct (open_file sw vw 0 (W (SLASH :: r)) 0 0) as [sw1 [aw|fw]];
       destruct (open_file sl vl 0 (SLASH :: r) 0 0) as [sl1 [al|fl]]; cbn [fst snd] in *; try contradiction; [exact Hres|].
     destruct Hres as (Hn & _ & _ & Hi1 & Hi2 & _ & _ & _ & Hnw & Hnl & Hsome).
-    unfold f_read_dir. destruct (hd_name fw); [congruence|]. destruct (hd_name fl); [congruence|].
+    unfold f_read_dir, dir_read. destruct (hd_name fw); [congruence|]. destruct (hd_name fl); [congruence|].
     rewrite Hn. destruct (hd_node fl) as [c|]; [|congruence].
     destruct (hrel_get_cases c (fr_heap F1)) as [[Ew El]|(nw & nl & Ew & El & Hnr)]; rewrite Ew, El; [reflexivity|].
     destruct Hnr; reflexivity.
